@@ -15,6 +15,8 @@ claim(
     "key-addressed collections are paired by key, never by position; combining with += keeps the receiver (shared rule of "
     "C07); fill hands the caller's weight to exactly the specified slots (shared rule of C02: additivity of fill over chunks); "
     "a + b, += and zero() of partials reloaded from JSON keep what only ed() establishes (shared rule of C04); "
+    "what fill leaves in mean/variance for every (state class x datum class) pair is what merging the one-datum partials leaves (shared rule of C02); "
+    "a dictionary accumulator (Bag.values) is merged key by key to self[k] + other[k] / other[k] (per-key evaluation); "
     "defs.combine/increment. Necessary conditions of the property; data-dependent key sets under fill and "
     "floating-point rounding are NOT decided.",
     "Identities are over the reals; formula extraction follows the branch selected by the stated scenario (finite datum, "
@@ -34,7 +36,11 @@ claim(
     "keys with the same function as the filling path, a child's name suppression being a constant that matches what the reader "
     "passes as nameFromParent, integer dict keys being parsed with int(text) directly (never through float), and ed() putting no range "
     "check on an accumulator other than entries (every state toJson can emit reloads), and every `getattr(child, name, default)` probe of a "
-    "writer being answered by each class that can still be the child at that point (Select's __getattr__ raises KeyError for unknown names). "
+    "writer being answered by each class that can still be the child at that point (Select's __getattr__ raises KeyError for unknown names); type tags "
+    "(contentType, *:type) come from `.name`, never from the Python class name that specialize() changes; every reader that restores a quantity name falls "
+    "back to nameFromParent; the string encodings 'nan'/'inf'/'-inf' of a tagged value (Bag, range) are decoded under the document's tag; a factored-out "
+    "child name the writer takes from the template is retained by the reader without children - this last clause fails for SparselyBin and Categorize, "
+    "recorded as known findings. "
     "Bit-exact float text and equality of reloaded "
     "content for arbitrary states are NOT decided.",
     "Assumes maybeAdd adds exactly the non-None keyword pairs and hasKeys is the closed-set test its body states (its "
@@ -51,7 +57,8 @@ claim(
     "against the confirmed table; template instantiation in fill/_numpy is fresh per slot; quantity names are written only "
     "on objects fresh out of ed(); mutable default arguments are never written and never become object state anywhere in the "
     "package; the plotting mixins are analysed with the field shapes of their host primitive and the projections they build "
-    "hold only fresh counters. Run-time object graphs built by user code are NOT decided.",
+    "hold only fresh counters; two child slots of one object never receive the same object (chained assignment, slot-to-slot store, one local stored twice). "
+    "Run-time object graphs built by user code are NOT decided.",
     "Induction hypothesis: +, *, zero(), copy() of a child aggregator return fresh objects (the same rule is checked on every "
     "class). Flow-insensitive joins make the analysis conservative.",
     "DESIGN.md section 3, C06",
@@ -63,7 +70,8 @@ claim(
     "the same raising structural guards as __add__, every accumulator augmented (not overwritten) from the same field of "
     "`other`, every child slot merged with += (children of key-addressed slots paired by key), right-only keys inserted; "
     "NaN-initialised fields merged under the two-sided empty discipline; every normal path returns self; `other` is never "
-    "written and nothing borrowed from it is stored into self; fillsparksql merges with +=. Value-level equality under "
+    "written and nothing borrowed from it is stored into self; fillsparksql merges with +=; no accumulating store of own state inside a merge loop is "
+    "loop-invariant; Bag.values is merged key by key to self[k] + other[k] / other[k] (per-key evaluation of the loop). Value-level equality under "
     "rounding is NOT decided.",
     "Same induction as C06 for child +=.",
     "DESIGN.md section 3, C07",
@@ -76,7 +84,7 @@ claim(
     "multiplied by the factor, intensive ones copied; __rmul__ delegates; stores keep the container kind fixed by __init__ "
     "wherever the class uses the field kind-sensitively (tuple concat, hash, item assignment); Count refuses a non-identity "
     "transform first; a slot that __init__ mirrors into per-element attributes (Branch.i0..iN) is only ever set by __init__; "
-    "the children of h*f are fresh objects (shared rule of C06). Numeric identities under rounding are NOT decided.",
+    "the children of h*f are fresh objects (shared rule of C06); structural parameters and the bin template of h*f are h's own. Numeric identities under rounding are NOT decided.",
     "The degree assignment must be the unique consistent one; otherwise ANALYSIS-ERROR.",
     "DESIGN.md section 3, C08",
 )
@@ -86,7 +94,7 @@ claim(
     "over the CFG + evaluation-order isinstance check + shape check of numeq",
     "Decides which fields == can see: every field that toJsonFragment serialises flows from both operands into a "
     "content-sensitive comparison not under `or`; iterating/sorting a dict compares keys only and does not count; zip counts "
-    "only with a length equality (so do elements obtained by iterating one operand only), and a proper slice or one attribute of a child (`self.denominator.entries`) does not count as the whole field; the quantity whose name is serialised "
+    "only with a length equality (so do elements obtained by iterating one operand only), and a proper slice or one attribute of a child (`self.denominator.entries`) or of an element of a child container (`v1.entries`) does not count as the whole field; the quantity whose name is serialised "
     "takes part in == and UserFcn.__eq__ depends on name and expr on every path; NaN-initialised fields go through numeq; isinstance(other, K) precedes any read of other; "
     "__ne__ negates ==; numeq has the NaN/inf/guarded-widening-tolerance/exact-fallback shape (decision table over IEEE classes; every "
     "positive-tolerance return is the symmetric `abs(x - y) <= bound`, through tolerance-derived locals as well). Equality of clones is NOT "
@@ -100,7 +108,8 @@ claim(
     "Decides for all 19 __add__/__iadd__: the type of `other` is established (isinstance with a failure edge that can only "
     "raise; reading an attribute does not count because Select forwards unknown attributes to its cut) before any store, child merge or construction; every structural "
     "parameter is compared with a mismatch that raises on its own (not only together with another mismatch, on a path that every normal return passes; scalars by value, fixed layouts by length/keys/thresholds, data-keyed "
-    "containers by declared content type, which must survive zero/+/* in reloaded form - shared rule of C04); and that += "
+    "containers by declared content type, which must survive zero/+/* in reloaded form - shared rule of C04); on every returning path every child slot has "
+    "passed through the children's own + / += (the only place where the children's types are compared); and that += "
     "changes no state before an operation that can still reject - the "
     "last clause fails on the 12 container classes, which are recorded as known findings. Run-time behaviour on concrete "
     "trees is NOT executed.",
@@ -116,7 +125,8 @@ claim(
     "self.x in the pickling helpers resolves; Select.__getattr__ cannot recurse; the globals shipped with a function quantity are selected "
     "by membership only; the branches of Bin/CentrallyBin/Count._numpy selected by `transform is identity` (the unpickled clone takes the "
     "general one) have the same effect (shared rules of C03); UserFcn.__eq__ compares function quantities by code and names only (values whose == "
-    "survives a copy); a string quantity keeps no per-record state in its unpickled closure (shared rule of C17). Fidelity of "
+    "survives a copy); a string quantity keeps no per-record state in its unpickled closure (shared rule of C17); fill.numpy never writes into the caller's "
+    "arrays, so clone and original handed one batch see the same batch (shared rule of C03). Fidelity of "
     "marshal-ed code and liveness/equality of the clone are NOT decided.",
     "pickle's protocol itself is trusted.",
     "DESIGN.md section 3, C11",
@@ -147,7 +157,8 @@ claim(
     "histogram and projections are built from fresh counters (shared rules of C06); the four accessors decide the end-of-range "
     "correction with one predicate; grid cells are addressed by positions of a dense index range or by lookup in the axis' key list; no view "
     "takes the length of an array from np.arange over float arguments; the accessors return an empty result for the same out-of-domain queries; an "
-    "edge `i * width + origin` takes width and origin from one histogram. Sub-range numerics (rounding, arange "
+    "edge `i * width + origin` takes width and origin from one histogram; an index that may be the negative 'no bin' sentinel is range-checked before it "
+    "addresses a list of children; range(i) is (E(i), E(i+1)) for one float expression E. Sub-range numerics (rounding, arange "
     "lengths) and mpv are NOT decided.",
     "IrregularlyBin.fill routes inline, so there is no shared routing function to compare with for that class.",
     "DESIGN.md section 3, C13",
@@ -160,7 +171,7 @@ claim(
     "get_features_specs whole (not through a filtering comprehension) and make_histograms forwards its specification parameters; every "
     "nesting primitive built in get_hist_bin receives the histogram built so far and the axis' quantity; every bin-spec key set produced anywhere "
     "is accepted by a branch of get_hist_bin; _fill_histogram fills through hist.fill.numpy; given specs are never overwritten; a "
-    "function that takes an axis index reads its column list with that index; no freshly indexed Series is assigned into the frame; the timestamp converter to_ns returns an integer on every path. The homomorphism over row chunks, "
+    "function that takes an axis index reads its column list with that index; no freshly indexed Series is assigned into the frame; the timestamp converter to_ns returns an integer on every path; the working frame process_features returns is never stored into by the functions it is handed to; the result of an empty-means-all column helper is consumed through the caller's own list. The homomorphism over row chunks, "
     "dtype inference and quantiles are run-time and NOT decided.",
     "Only the pandas filler is followed (spark is not importable here and is outside the property's environment).",
     "DESIGN.md section 3, C14",
@@ -174,7 +185,8 @@ claim(
     "element, every hasKeys gate is closed and its failure edge can only raise, no fall-through return, no exception "
     "built without raise, every JSON value is used only under a type validation that agrees with the use, ed() "
     "re-validates ranges, header/version/unknown-type gates raise and the version gate is monotone in the document's version, every key that is read reaches the field it was written from (shared rule of C04), every child fragment is parsed by the factory of its own "
-    "type tag (shared rule of C04). This is the structural clause of the property "
+    "type tag (shared rule of C04), every gated key of the fragment is read on every path to a successful return, no document-derived dict is splatted into "
+    "named parameters (shared rule of C04). This is the structural clause of the property "
     "(every failed validation ends in raise; nothing dropped, duplicated or defaulted); behaviour of fromJson on "
     "concrete documents is not executed.",
     "Assumes an unbound local raises, Factory.registered[x] raises for unknown x, child readers validate their own "
@@ -188,7 +200,7 @@ claim(
     "`children` reads every stored slot fill/_numpy fill; in the walk the identity test and raise must not be "
     "control-dependent on the once-only flag the same traversal sets - this last clause fails on today's tree and is "
     "recorded as a known finding; the once-only flag is stored after the recursion into the children; outside the _numpy methods every "
-    "use of `<x>._numpy` is dominated by a call of the walk; the flag is not stored on the failure path; `children` lists every filled slot on every branch. Detection on concrete trees is NOT executed.",
+    "use of `<x>._numpy` is dominated by a call of the walk; the flag is not stored on the failure path; `children` lists every filled slot on every branch; __hash__ of a primitive with a bin template does not read the template (the walk's memo hashes every node). Detection on concrete trees is NOT executed.",
     "none beyond the class model.",
     "DESIGN.md section 3, C16",
 )
@@ -202,7 +214,8 @@ claim(
     "key is stored only after the wrapped call returned; UserFcn.__call__ compiles once, passes arguments through, evaluates in a "
     "namespace that is fresh per call and in which the record's fields take precedence over pre-loaded names, and discovers the free "
     "variable of a bare-datum expression as exactly (names of the code object) minus (names the namespace provides), and takes a record's fields unfiltered; "
-    "the wrapper functions never assign attributes of the wrapper they are given. What string expressions "
+    "the wrapper functions never assign attributes of the wrapper they are given; UserFcn.__init__ stores a derived name only when no name was given; the "
+    "evaluation namespace is pre-loaded with all public names of math (no filter but a leading-underscore test). What string expressions "
     "evaluate to is NOT decided.",
     "none beyond the class model.",
     "DESIGN.md section 3, C17",
@@ -255,7 +268,7 @@ claim(
     "child sequence is never indexed by an unclamped float-derived index (scalar and vectorised); __mul__ implements the "
     "scaling table derived from fill; a numeric datum never makes fill raise; no node writes into the weight/data arrays its "
     "siblings also use and child += other_child updates the child (shared rules of C03/C07); Bag keys are normalised so that equal data share "
-    "one key (shared rule of C02); a Count child of a collection sees the batch length (shared rule of C03). NOT decided: that floats adjacent to an edge land in the numerically right bin, and "
+    "one key (shared rule of C02); a Count child of a collection sees the batch length and a Count handed a scalar weight and a known length grows by weight x rows (shared rules of C03). NOT decided: that floats adjacent to an edge land in the numerically right bin, and "
     "sums up to rounding; invariants through + and += are the structural clauses of C01/C07.",
     "Same assumptions as C02/C03.",
     "DESIGN.md sections 2.4 and 3, C05",
